@@ -37,7 +37,8 @@ CLAIMED = {
                      'writers are measured out of reach'),
     'C18': ('other', 'bounded: trivia filters (clear_comments, clear_whitespaces, filter_comments) keep the code token and select exactly the '
                      'right trivia; line-comment detection equals the long-bracket rule; the writer always breaks the line after a line comment '
-                     'before code. append_text_comment::text, the regex filter and the remove_spaces visitor are not covered'),
+                     'before code; remove_comments keeps a comment exactly when some `except` pattern matches (abstract match relation, regex stubbed). '
+                     'append_text_comment::text, the regex engine, the per-node processors and the remove_spaces visitor are not covered'),
     'C20': ('other', 'boolean filter logic only, bounded: RuleMetadata::should_apply and Configuration::should_apply_rule equal '
                      '(no apply pattern or one matches) and no skip pattern matches, over an ABSTRACT match relation (FilterPattern::matches '
                      'stubbed; glob semantics of the wax crate and the "same pipeline with that rule deleted" equivalence are not covered)'),
